@@ -47,6 +47,68 @@ def indep_ll(x, mu, theta):
     return 0.5 * (logdet - float(y @ y) - n * math.log(2 * math.pi))
 
 
+def exact_logdet(A):
+    """log det of a matrix of doubles, the determinant computed exactly over the rationals"""
+    n = len(A)
+    M = [[Fraction(float(v)) for v in r] for r in A]
+    det = Fraction(1)
+    for i in range(n):
+        p = next((r for r in range(i, n) if M[r][i] != 0), None)
+        if p is None:
+            return None
+        if p != i:
+            M[i], M[p] = M[p], M[i]
+            det = -det
+        det *= M[i][i]
+        for r in range(i + 1, n):
+            f = M[r][i] / M[i][i]
+            for c in range(i, n):
+                M[r][c] -= f * M[i][c]
+    if det <= 0:
+        return None
+    return math.log(det.numerator) - math.log(det.denominator)
+
+
+def graded_section(ctx, likelihood):
+    """precision matrices of sensors on very different scales (theta = D B D, B well conditioned, D spanning 6 to 12
+    decades: condition numbers 1e12 .. 1e24, every eigenvalue and the determinant well inside the double range):
+    the table must be the log-density, the determinant and the quadratic form computed EXACTLY over the rationals."""
+    rs = np.random.RandomState(ctx.seed + 505)
+    for trial in range(40 if ctx.quick() else 400):
+        n = int(rs.randint(2, 7))
+        a = rs.randn(n, n) * 0.4
+        B = np.eye(n) + a @ a.T
+        span = float(rs.choice([6, 8, 10, 12]))
+        d = 10.0 ** rs.uniform(-span / 2, span / 2, size=n)
+        if trial % 3 == 0:
+            d = np.sort(d)
+        theta = (B * d[:, None]) * d[None, :]
+        theta = (theta + theta.T) / 2
+        thetas = [theta, theta * 1.5]
+        mus = [rs.randn(n) / d, rs.randn(n) / d]
+        data = rs.randn(4, n) / d
+        model = tu.real_model(thetas, mus, 1, 4)
+        with warnings.catch_warnings():
+            warnings.simplefilter("ignore")
+            table = likelihood.all_points_all_clusters_log_likelihood(model, data)
+        bad = None
+        for k, th in enumerate(thetas):
+            ld = exact_logdet(th)
+            if ld is None:
+                continue
+            for p in range(4):
+                dd = [Fraction(float(x)) - Fraction(float(m)) for x, m in zip(data[p], mus[k])]
+                q = sum(dd[i] * Fraction(float(th[i, j])) * dd[j] for i in range(n) for j in range(n))
+                want = 0.5 * (ld - float(q) - n * math.log(2 * math.pi))
+                if not (math.isfinite(table[p, k]) and oracles.rel_close(table[p, k], want, 1e-9, 1e-9)):
+                    bad = f"table[{p},{k}] = {table[p, k]} != log-density {want} (n={n}, sensor scales spanning {span:g} decades)"
+        if bad:
+            ctx.violation("impl-violation", bad, {"graded": True, "n": n, "span": span, "trial": trial,
+                                                  "theta": [[float(v) for v in r] for r in theta]}, {"site": "ll-graded"})
+        ctx.count("graded_scale_cases")
+        ctx.case(("graded", trial), nontrivial=True)
+
+
 def run(ctx):
     common.setup_repo_import()
     from fast_ticc import likelihood
@@ -86,6 +148,15 @@ def run(ctx):
             cfgs.append(cfg)
         # "NW in the hundreds and determinants far outside the range of a double" through the PUBLIC front end
         cfgs += tu.high_dimensional_configs(ctx.rng, (1e6, 10 ** 4.5) if ctx.quick() else (1e6, 10 ** 4.5, 1e3, 1e-2, 1e5))
+        for i in range(3 if ctx.quick() else 24):
+            # sensors in unnormalised units, many decades apart: the fitted MRFs have condition numbers of 1e12 and up
+            cfg = tu.gen_config(ctx.rng, joint=(i % 3 == 2))
+            cfg.update({"N": 3, "W": ctx.rng.choice([1, 2]), "K": 2, "lam": 0.11, "eps": 0, "limit": min(cfg["limit"], 3),
+                        "sensor_scales": [[1e3, 1, 1e-3], [5e4, 1, 2e-5], [1e-4, 1e2, 1]][i % 3]})
+            cfg.pop("dtype", None)
+            if not cfg["joint"]:
+                cfg["lens"] = [cfg["W"] + ctx.rng.randint(120, 170)]
+            cfgs.append(cfg)
         for i in range(4 if ctx.quick() else 40):
             # caller-side dtypes other than float64 (integer counts, single precision): the fitted means are not
             # representable in the data's dtype
@@ -190,6 +261,9 @@ def run(ctx):
         ctx.case(("sweep", n, target, c.get("offset")), nontrivial=n >= 2,
                  sample={"n": n, "log_det": target, "ll00": float(table[0, 0])} if n in (100, 200) and len(ctx.samples) < 4 else None)
 
+    if ctx.replay is None or ctx.replay.get("graded"):
+        graded_section(ctx, likelihood)
+
     # ---------------- (c) completed runs
     for cfg in cfgs:
         res, tr, err, series = tu.execute(cfg, capture_kernel=True)
@@ -264,4 +338,6 @@ def run(ctx):
             ctx.count("runs_with_floor")
         if cfg.get("dtype"):
             ctx.count("runs_dtype:" + cfg["dtype"])
+        if cfg.get("sensor_scales"):
+            ctx.count("runs_with_graded_sensor_scales")
         ctx.case(("cfg", repr(sorted(cfg.items()))), nontrivial=cfg["N"] * cfg["W"] >= 2)
